@@ -263,8 +263,8 @@ func main() {
 		if ns >= 3 {
 			o.MaxNodeFail = rng.Intn((ns-1)/2 + 1)
 		}
-		o.RealShared = i%3 == 0 // production LocalShared/IncMap binding of the plain per-server variables
-		if rng.Intn(5) == 0 {   // election storm
+		o.RealShared = i%3 == 0 && i < 600 // production LocalShared/IncMap binding of the plain per-server variables (costly: state read back through gob)
+		if rng.Intn(5) == 0 {              // election storm
 			o.BiasLeaderTimeout = 25
 		}
 		pol := pols[i%len(pols)]
